@@ -51,7 +51,7 @@ pub struct Swarm {
     pub special: u32,
     /// percent: right after a pop or a special move, inject a refusal / rebuild next
     pub after_special: u32,
-    pub start_w: [u32; 5],
+    pub start_w: [u32; 6],
     pub overlay: Overlay,
     pub quiet_start: u32,
     pub faults_on: bool,
@@ -135,7 +135,7 @@ impl Swarm {
                 }
             }
         };
-        let mut start_w = [2u32, 4, 3, 2, 3];
+        let mut start_w = [2u32, 4, 3, 2, 3, 1];
         for x in start_w.iter_mut() {
             if rng.chance(25) {
                 *x = 0;
